@@ -67,6 +67,60 @@ META.update({
     },
 })
 
+ENUM = (" The binding is by replay: TLC's enumeration of the whole small-scope input space becomes one implementation "
+        "case per state, compared under the property's own relation on every element type / encoding / backend cell. "
+        "Bounded-exhaustive model checking of the specification plus conformance, not a proof.")
+
+META.update({
+    "C06": {
+        "text": "AppendOnly (an action property: emitted outputs are never revised and exist before the next input does) and "
+                "OutDef (an output is a function of its window only) of RollKernels / RollKernels2, and PrefixLaw of MapOps "
+                "for non-negative lags, are checked by TLC; the binding evaluates the real functions on every prefix of every "
+                "emitted history and requires bit-for-bit equality with the whole-series run, and re-runs histories with the "
+                "pre-window part replaced (exact for min/max/arg/rank, rounding otherwise)." + ENUM,
+        "note": NOTE + " Replaced histories are finite integers of bounded magnitude (DESIGN 5.2); omitted min_periods of "
+                "the extrema family excluded from the prefix law (DESIGN 5.3).",
+        "design": "DESIGN.md section 6 C06, 5.2",
+    },
+    "C08": {
+        "text": "Every definition of Agg / OrderStats / RollKernels is over Sel(s) / PairSel (NullTransparent checked by TLC "
+                "for all null positions); on the code, one expectation is replayed under NaN-coded, None-coded and "
+                "option-view encodings with f64 / f32 / Option<f64> / i32 outputs, NaN- vs None-coded results must be "
+                "bit-identical, and deleting the nulls must leave every aggregation bit-identical." + ENUM,
+        "note": NOTE + " Canonical nulls only (DESIGN 5.4).",
+        "design": "DESIGN.md section 6 C08",
+    },
+    "C11": {
+        "text": "Agg.tla gives the textbook meaning of every aggregation over the non-null elements with its observation "
+                "threshold and the one-pass fold machine; TLC runs the fold over every series / pair / mask within the bound "
+                "and checks FoldRefines, FoldPrefix, PermInvariant over all permutations, NullTransparent." + ENUM,
+        "note": NOTE + " AggBasic twins on null-free input (DESIGN 5.9).",
+        "design": "DESIGN.md section 6 C11",
+    },
+    "C12": {
+        "text": "OrderStats.tla defines quantile at the exact rational index under four interpolations, percentile-of-score, "
+                "average ranks and partitions as multisets; the mirrored selection for q > 1/2 and vrank's run-length loop "
+                "(as its list of unchecked writes) are operational models checked against the definitions (MirrorOK, "
+                "RankLoopOK incl. exactly-once writes)." + ENUM,
+        "note": NOTE + " Knife-edge quantile indices accept either neighbour (DESIGN 5.5).",
+        "design": "DESIGN.md section 6 C12",
+    },
+    "C13": {
+        "text": "MapOps.tla: positional definitions, fill machines (FillRefines), LenPreserved, FillLaws, ClipLaws "
+                "(idempotent, inside bounds, monotone, nulls stay null) checked by TLC over every series, lag band incl. the "
+                "i32 extremes, fill and bound combination." + ENUM,
+        "note": NOTE,
+        "design": "DESIGN.md section 6 C13",
+    },
+    "C14": {
+        "text": "MapOps.tla: CutOne with UniqueBin and OpenBoundsTotal, and the sorted-unique look-ahead machine against run "
+                "ends (UniqRefines, never a null index), checked by TLC over every ascending edge vector, label count, flag "
+                "combination and grouped series." + ENUM,
+        "note": NOTE + " Null-capable label types only (DESIGN 5.8).",
+        "design": "DESIGN.md section 6 C14",
+    },
+})
+
 DEFAULT_NA = "check not built yet in this round (work in progress; see DESIGN.md section 11)"
 
 
